@@ -8,7 +8,7 @@ res = [l for l in open(d + '/confirm.log') if l.startswith('RESULT')][-1].strip(
 m = {'id': sid, 'property': prop, 'summary': a.get('summary'), 'needs': a.get('needs'), 'files': a.get('files'),
      'author': 'independent sub-agent given only the property text and a scratch worktree',
      'confirmed_by_me': res,
-     'what_i_ran': 'bin/confirm_seed.sh (demo on clean tree passes, demo on patched tree fails, go build/vet and the existing tests of %s pass with the patch apart from the two baseline always-fail portalwire tests); then git -C /repo apply patch.diff; bin/vcheck %s --tier quick; git -C /repo checkout -- .' % (pk, prop),
+     'what_i_ran': 'bin/confirm_seed.sh (demo on clean tree passes, demo on patched tree fails, go build/vet and the existing tests of %s pass with the patch apart from the two baseline always-fail portalwire tests); then bin/try_seed.sh %s %s (bin/vcheck --tier quick from a scratch copy of /verif against a scratch worktree of /repo with patch.diff applied; both removed afterwards)' % (pk, sid, prop),
      'detection': det}
 json.dump(m, open(d + '/meta.json', 'w'), indent=1)
 if os.path.exists(d + '/meta.agent.json'):
